@@ -42,4 +42,4 @@ replay = histcheck.make_replay(HOOKS)
 
 
 def shards(tier):
-    return histcheck.std_shards(tier, 700, 6000)
+    return histcheck.std_shards(tier, 700, 6000, bulk=2 if tier == "thorough" else 0)
